@@ -19,7 +19,7 @@ def packStep (info : CompId → CompInfo) (e : Handle) (isCreate : Bool)
   | .remove _ c =>
     if p.final.contains c then
       let next := closedMask w.deps (Mask.erase p.final c)
-      if next.contains c then acc
+      if next.contains c then (w, { p with final := next }, cbs)
       else (w, { p with final := next, replaced := Mask.insert p.replaced c, src := p.src.filter (·.1 != c) }, cbs)
     else acc
   | .assign _ c v =>
@@ -40,6 +40,14 @@ def packStart (w : WM) (first : Cmd) : Option (WM × Mask × Shared) :=
     | some ai => some (w, (w.arch ai).mask, (w.arch ai).shared)
 
 def isCreateCmd (c : Cmd) : Bool := match c with | .create .. => true | _ => false
+
+/-- the component set a pack starts from: a creation looks its archetype up (closed set), an existing entity
+    starts from the mask its archetype really has -/
+def packInit (isCreate : Bool) (deps : List (CompId × Mask)) (m : Mask) : Mask :=
+  if isCreate then closedMask deps m else m
+
+theorem packInit_create (deps : List (CompId × Mask)) (m : Mask) : packInit true deps m = closedMask deps m := rfl
+theorem packInit_existing (deps : List (CompId × Mask)) (m : Mask) : packInit false deps m = m := rfl
 
 def packSetVal (ti idx : Nat) (w : WM) (c : CompId) (v : Val) : WM :=
   let ta := w.arch ti
@@ -84,10 +92,10 @@ theorem applyPack_eq (info : CompId → CompInfo) (w : WM) (first : Cmd) (rest :
       match packStart w first with
       | none => (w, [])
       | some (w1, initial0, sh) =>
-        packFinish info first.entity (isCreateCmd first) (closedMask w1.deps initial0) sh
+        packFinish info first.entity (isCreateCmd first) (packInit (isCreateCmd first) w1.deps initial0) sh
           ((if isCreateCmd first then rest else first :: rest).foldl
             (packStep info first.entity (isCreateCmd first))
-            (w1, { final := closedMask w1.deps initial0 }, [])) := by
+            (w1, { final := packInit (isCreateCmd first) w1.deps initial0 }, [])) := by
   rfl
 
 
@@ -349,7 +357,7 @@ theorem applyPack_ctl (info : CompId → CompInfo) (w : WM) (pack : List Cmd) :
       rcases r with ⟨w1, initial0, sh⟩
       simp only
       exact ((packStart_ctl w first _ hs).trans
-        (packFold_ctl info first.entity (isCreateCmd first) _ (w1, { final := closedMask w1.deps initial0 }, []))).trans
+        (packFold_ctl info first.entity (isCreateCmd first) _ (w1, { final := packInit (isCreateCmd first) w1.deps initial0 }, []))).trans
         (packFinish_ctl info _ _ _ _ _)
 
 end Mustache.Proofs.Rows
